@@ -87,7 +87,17 @@ pub fn nudge_from_apex(t: [[f32; 4]; 3]) -> (Option<[[f32; 4]; 3]>, &'static str
 }
 
 pub fn clip_scene(max_dim: u32, max_tris: usize, color_only_ok: bool) -> BoxedStrategy<Scene> {
-    (dims(max_dim), dims(max_dim))
+    clip_scene_dims((dims(max_dim), dims(max_dim)).boxed(), max_tris, color_only_ok)
+}
+
+/// Long, low buffers (600..1400 x 1..6, or transposed): a relative error of 1e-3 in a projected coordinate is a pixel there.
+pub fn clip_scene_long(max_tris: usize) -> BoxedStrategy<Scene> {
+    let d = (600u32..=1400, 1u32..=6, any::<bool>()).prop_map(|(l, s, t)| if t { (s, l) } else { (l, s) });
+    clip_scene_dims(d.boxed(), max_tris, true)
+}
+
+pub fn clip_scene_dims(bwbh: BoxedStrategy<(u32, u32)>, max_tris: usize, color_only_ok: bool) -> BoxedStrategy<Scene> {
+    bwbh
         .prop_flat_map(move |(bw, bh)| {
             (
                 Just((bw, bh)),
@@ -386,6 +396,8 @@ pub fn run(cx: &mut Ctx) {
     cx.prop_check("clip-space", n, move || clip_scene(md, mt, true), |c, obs| check(c, obs));
     let n = cx.n(60_000, 600_000);
     cx.prop_check("camera", n, move || camera_scene(md, mt, true), |c, obs| check(c, obs));
+    let n = cx.n(3_000, 60_000);
+    cx.prop_check("clip-space-long-buffers", n, move || clip_scene_long(3), |c, obs| check(c, obs));
 }
 
 pub fn replay(_sub: &str, case: &Value) -> Check {
